@@ -498,6 +498,52 @@ def main(a0, a1):
     g[1][2] = a1 / 3
     return (xs, g, m + k)
 ''', ['R', 'R']),
+    # a constructor argument that is itself a helper call is evaluated exactly (the helper inherits REAL)
+    ('ctor-arg-helper-call', '''
+@fp.fpy
+def h0(p0):
+    return p0 + 3
+
+@fp.fpy
+def h1(p0, p1):
+    return p0 * p1 + 1
+
+@fp.fpy
+def main(a0, a1):
+    with fp.MPFloatContext(2, fp.RM.{rm1}):
+        b = 8
+        with fp.MPFloatContext(h0(b), fp.RM.{rm2}):
+            y = a0 / a1
+        with fp.MPFloatContext(h1(5, 5)):
+            z = a0 / a1
+        with fp.IEEEContext(h0(2), h0(h1(3, 3)), fp.RM.{rm2}):
+            v = a0 / a1
+        w = a0 / a1
+    return (y, z, v, w)
+''', ['R', 'R']),
+    # every evaluation of range(...) is a fresh list: a store into one is not seen through another
+    ('range-list-fresh', '''
+@fp.fpy
+def h0(p0):
+    rs = range(4)
+    rs[2] = rs[2] + p0
+    return rs
+
+@fp.fpy
+def main(a0, a1):
+    xs = range(4)
+    xs[1] = xs[1] + a0
+    ys = range(4)
+    zs = [i for i in range(4)]
+    t = 0
+    for i in range(4):
+        ws = range(1, 5)
+        ws[i] = ws[i] * a1
+        t = t + sum(ws)
+    us = h0(a0)
+    vs = h0(a1)
+    return (sum(ys), sum(zs), xs[1], ys[1], t, us[2], vs[2], sum(range(4)), sum(range(1, 5)))
+''', ['R', 'R']),
 ]
 
 RM_SAFE = ['RNE', 'RNA', 'RTP', 'RTZ', 'RAZ', 'RTN', 'RTO', 'RTE']
